@@ -545,6 +545,10 @@ def audit_extra(ctx, module, names):
         src = open(os.path.join(LEAN, 'Sio', 'Props', module + '.lean')).read()
         found, text = _print_axioms(src, full)
         ctx.notes.append('lake build Sio.Props.%s failed; its theorems were judged one by one' % module)
+        if not found and re.search(r'object file .* does not exist|unknown module prefix|could not resolve import',
+                                   text):
+            raise Infra('imports of Sio.Props.%s are not built (tree changed during the run?):\n%s'
+                        % (module, (out + '\n' + text)[-2000:]))
     theorems, discharged = [], 0
     for n in full:
         if n not in found:
@@ -566,8 +570,8 @@ def audit_extra(ctx, module, names):
     ctx.coverage['obligations'] = ctx.coverage.get('obligations', 0) + len(full)
     ctx.coverage['discharged'] = ctx.coverage.get('discharged', 0) + discharged
     ctx.coverage['theorems'] = list(ctx.coverage.get('theorems', [])) + theorems
-    ctx.coverage['checker_cmd_' + module.lower()] = (
-        'bin/regen && cd lean && lake build Sio.Props.%s && lake env lean Sio/Audit/%s.lean' % (module, module))
+    ctx.coverage['checker_cmd'] = (ctx.coverage.get('checker_cmd', '') + ' ; bin/regen && cd lean && lake build '
+                                   'Sio.Props.%s && lake env lean Sio/Audit/%s.lean' % (module, module)).lstrip(' ;')
     ctx.coverage['trusted_base'] = list(ctx.coverage.get('trusted_base', [])) + [
         'translator harness/translate_constants.py (ast -> Sio/Generated/Constants.lean; socketio source and the '
         'installed engineio package are read, not executed)']
